@@ -1,6 +1,6 @@
 (* C18 - the theorems, assembled from the invariants, in the form stated in Prop_C18.v *)
 From Coq Require Import List Arith Bool Lia.
-From GoPdf.C18 Require Import Cache CacheLemmas CacheInv CacheExcl CacheOnce CacheCount CacheLive CachePair CacheSeq.
+From GoPdf.C18 Require Import Cache CacheLemmas CacheInv CacheExcl CacheOnce CacheCount CacheLive CacheTypes CachePair CacheSeq.
 Import ListNotations.
 
 Section Thm.
@@ -129,6 +129,31 @@ Proof.
       + eapply reach_all_inv; eauto. econstructor; eauto.
       + destruct I1 as [J1 [J2 [J3 _]]]. eapply step_count_inv; eauto. }
   destruct I as [_ [K _]]. exact K.
+Qed.
+
+(* ---- calls for different types of one reference are independent ---- *)
+Theorem wait_same_key_thm : forall progs sched s b tid th r t p,
+  wf_file -> wf_progs progs -> runS (init progs) sched = (s, b) ->
+  nth_error (ths s) tid = Some th -> tpc th = PExWait r t p ->
+  exists o, nth_error (pends (sh s)) p = Some ((r, t), o).
+Proof.
+  intros. destruct (reach_all_inv progs s) as [I1 _]; eauto using schedule_reach.
+  eapply wait_same_key_inv; eauto.
+Qed.
+
+Theorem excl_leads_own_type_thm : forall progs sched s b tid th r t path,
+  wf_file -> wf_progs progs -> runS (init progs) sched = (s, b) ->
+  nth_error (ths s) tid = Some th -> tpc th = PExEnter r t path ->
+  lookup (cache (sh s)) (r, t) = None ->
+  (forall p, nth_error (pends (sh s)) p <> Some ((r, t), None)) ->
+  exists s' th' p,
+    stepS s tid = Some s' /\ nth_error (ths s') tid = Some th' /\
+    tpc th' = PProbe {| cref := r; cty := t; cpath := path; cex := Some p |} r [] path /\
+    lookup (wip (sh s')) (r, t) = Some p /\
+    nth_error (pends (sh s')) p = Some ((r, t), None).
+Proof.
+  intros. destruct (reach_all_inv progs s) as [_ [I2 _]]; eauto using schedule_reach.
+  eapply excl_leads_own_type_inv; eauto.
 Qed.
 
 (* ---- pair_atomic ---- *)
